@@ -116,6 +116,19 @@ def run(facts, rep, ctx):
             rep.violation(R7, rd.name, "classification", "pointer entries are classified by %s (canonical files hold internal pointers with any destination up to and including the data size)" % rm["classify"], "%s:%s" % (rd.file, rd.line))
 
 
+    # parse -> re-serialize: what the parser hands to the archive's adders is what serialize later emits
+    R9 = rep.rule("R02.9", "the adders the parser stores its strings, pointers and labels through keep every payload (shared adder contract)", floor=1)
+    if rd is not None:
+        import annot
+        called = sorted({nm for nm in annot.ADDERS if nm != "write_c_string" and any(
+            (f_.get("res") or f_.get("def") or "").endswith("BinArchive::" + nm)
+            for f_ in facts.callees(rd))})
+        if called:
+            annot.contract(facts, rep, R9, tuple(called))
+        else:
+            rep.ok(R9, {"parser_stores": "directly into the archive's maps"})
+
+
 def total_for(spec, stable, key_paths):
     """Is the sort total up to deterministic ties?  True when it compares whole elements, or one of its
     components is the (unique) map key and, if further ties remain, the sort is stable."""
